@@ -129,6 +129,73 @@ Theorem C14_random_counts : forall hs i xs, NoDup hs -> (i < List.length hs)%nat
 Proof. exact random_counts. Qed.
 Print Assumptions C14_random_counts.
 
+(* ---- fastrand.Uint32n as Go computes it ---- *)
+(* uint32((uint64(x) * uint64(n)) >> 32) with every conversion and the 64-bit product written
+   with its wrap is the plain quotient (no wrap occurs), and an index below n *)
+Theorem C14_uint32n_as_computed : forall x n, 0 <= x < two32 -> 0 < n < two32 ->
+  uint32n_go x n = uint32n x n /\ 0 <= uint32n_go x n < n.
+Proof. exact (fun x n Hx Hn => conj (uint32n_go_eq x n Hx ltac:(lia)) (uint32n_go_range x n Hx Hn)). Qed.
+Print Assumptions C14_uint32n_as_computed.
+
+(* ---- a dynamic subscriber: the windows between changes of the list ---- *)
+(* runs compose, and the counter counts exactly the successful lookups of ANY history *)
+Theorem C14_rr_counter_counts_selections : forall rs c, 0 <= c < two64 ->
+  fst (rr_run c rs) = (c + Z.of_nat (succ_count rs)) mod two64.
+Proof. exact rr_counter. Qed.
+Print Assumptions C14_rr_counter_counts_selections.
+
+(* whatever was reported before (pre) and is reported afterwards (post): the selections made
+   during a stretch of calls whose successful lookups all report hs are fair over every window *)
+Theorem C14_rr_dynamic_windows : forall hs pre blk post c0,
+  NoDup hs -> hs <> [] -> 0 <= c0 < two64 -> Stable hs blk ->
+  c0 + Z.of_nat (succ_count (pre ++ blk)) <= two64 ->
+  exists o_pre o_blk o_post,
+    snd (rr_run c0 (pre ++ blk ++ post)) = (o_pre ++ o_blk ++ o_post)%list /\
+    List.length o_pre = List.length pre /\ List.length o_blk = List.length blk /\
+    RRFair hs (oks o_blk) /\ rr_seq_b hs (oks o_blk) = true.
+Proof. exact rr_dynamic_window. Qed.
+Print Assumptions C14_rr_dynamic_windows.
+
+(* ---- constructors ---- *)
+(* the round robin balancer as NewRoundRobinLB builds it over a fixed list of distinct hosts,
+   for every draw of its start position: the counter hypothesis of C14_rr_balance is
+   discharged (the start lies inside the list), every window of its first M <= 2^64 - 2^32
+   selections is fair *)
+Theorem C14_constructed_rr_fair : forall hs x (xs : list Z), NoDup hs -> hs <> [] -> 0 <= x < two32 ->
+  Z.of_nat (List.length hs) <= two32 -> Z.of_nat (List.length xs) + two32 <= two64 ->
+  RRFair hs (oks (bal_run (new_rr (SFixed hs) x) hs xs)).
+Proof. exact constructed_rr_fair. Qed.
+Print Assumptions C14_constructed_rr_fair.
+
+(* whichever constructor (generic / round robin / random), processor count and draw: a
+   balancer over a fixed subscriber only answers hosts of its list (the single-host
+   balancer, which never asks the subscriber, is only built for exactly that host) *)
+Theorem C14_constructed_membership : forall k procs hs x xs, hs <> [] ->
+  (forall y, In y xs -> 0 <= y < two32) ->
+  Forall (CallOk {| rp_hosts := hs; rp_err := None |}) (bal_run (build k procs (SFixed hs) x) hs xs).
+Proof. exact constructed_membership. Qed.
+Print Assumptions C14_constructed_membership.
+
+(* the round robin constructors ignore the processor count and never build the random
+   balancer; NewBalancer is round robin exactly when GOMAXPROCS = 1 *)
+Theorem C14_constructor_choice : forall procs s x,
+  build CRoundRobin procs s x = new_rr s x /\ new_rr s x <> BRandom /\
+  (procs = 1 -> build CGeneric procs s x = new_rr s x) /\
+  (procs <> 1 -> build CGeneric procs s x = new_random s).
+Proof. exact rr_constructors_fixed_kind. Qed.
+Print Assumptions C14_constructor_choice.
+
+(* the middleware passes the balancer's error on and otherwise shows the next proxy
+   host ++ path for a host of the list reported for that call *)
+Theorem C14_middleware_step : forall r o path, CallOk r o ->
+  match mw_step o path with
+  | MwNext u => exists h, u = (h ++ path)%string /\ In h (rp_hosts r) /\ rp_err r = None
+  | MwErr e => o = Err e /\ (rp_err r <> None \/ rp_hosts r = [])
+  | MwPanic => False
+  end.
+Proof. exact mw_step_ok. Qed.
+Print Assumptions C14_middleware_step.
+
 (* ---- the boolean oracles are the Props ---- *)
 Theorem C14_call_oracle : forall r o, call_ok_b r o = true <-> CallOk r o.
 Proof. exact call_ok_b_iff. Qed.
@@ -164,6 +231,13 @@ Theorem C14_model_meets_seq_oracle : forall hs c0 M, NoDup hs -> hs <> [] -> 0 <
 Proof. exact rr_model_seq_oracle. Qed.
 Print Assumptions C14_model_meets_seq_oracle.
 
+(* ... and, over ANY history of a dynamic subscriber, the block oracle of the dynamic cases
+   (every maximal stretch of calls on one list is fair over every window) *)
+Theorem C14_model_meets_block_oracle : forall rs c, 0 <= c -> c + Z.of_nat (List.length rs) < two64 ->
+  blocks_b None [] (combine rs (snd (rr_run c rs))) = true.
+Proof. exact blocks_model_meets. Qed.
+Print Assumptions C14_model_meets_block_oracle.
+
 (* non-vacuity *)
 Example C14_ex_balance_hyp : exists hs c0 M, NoDup hs /\ hs <> [] /\ 0 <= c0 /\ c0 + Z.of_nat M <= two64
   /\ oks (picks_of hs (tickets c0 M)) = ["b"; "c"; "a"; "b"].
@@ -192,3 +266,17 @@ Proof.
   split; [|split; vm_compute; reflexivity].
   intros r [H|[H|[H|[H|[H|[]]]]]]; subst; vm_compute; eauto.
 Qed.
+Example C14_ex_constructors :
+  new_rr (SFixed ["a"]) 7 = BNop "a" /\ new_rr (SFixed ["a"; "b"; "c"]) 4294967295 = BRR 2 /\
+  new_rr SOther 9 = BRR 0 /\ new_balancer 1 SOther 0 = BRR 0 /\ new_balancer 16 SOther 0 = BRandom /\
+  lookup "NewRoundRobinLoadBalancedMiddlewareWithLogger" mw_constructors = Some CRoundRobin.
+Proof. vm_compute. repeat split; reflexivity. Qed.
+Example C14_ex_blocks :
+  blocks_b None [] [({| rp_hosts := ["a"; "b"]; rp_err := None |}, Ok "b");
+                    ({| rp_hosts := []; rp_err := Some "x" |}, Err (ESub "x"));
+                    ({| rp_hosts := ["a"; "b"]; rp_err := None |}, Ok "a");
+                    ({| rp_hosts := ["c"; "a"; "b"]; rp_err := None |}, Ok "c");
+                    ({| rp_hosts := ["c"; "a"; "b"]; rp_err := None |}, Ok "a")] = true /\
+  blocks_b None [] [({| rp_hosts := ["a"; "b"]; rp_err := None |}, Ok "b");
+                    ({| rp_hosts := ["a"; "b"]; rp_err := None |}, Ok "b")] = false.
+Proof. vm_compute. auto. Qed.
